@@ -53,6 +53,19 @@ def run(tier, pid='C08'):
             nsteps += s
             if kind == 'extended' and k == 2:
                 chk.sample({'random_history_prefix': [(c['h']['kind'], c['h']['zone'], c['op'], c['arg']) for c in hs[0][:6]]})
+    # the Python reference implementation keeps a per-year cache too (ZoneSpecifier.init_for_year): reused object vs fresh object
+    from . import C04
+    pyn = 0
+    if pid == 'C08':
+        data = C04.decoded_tables('extended')
+        res, err = C04.run_py(dict(data, seed=common.seed(), length=30 if tier == 'quick' else 150), work, 'history', 'hist')
+        if res is None:
+            chk.violation('python:history-crash', 'ZoneSpecifier history driver failed: %s' % err, {'stderr': err})
+        else:
+            pyn = res['ncalls']
+            for b in res['bad']:
+                chk.violation('python:%s:%s' % (b['zone'], b['kind']), 'ZoneSpecifier(%s) reused across years answers %s at step %d (%s %d), a fresh one %s' % (b['zone'], str(b['reused'])[:120], b['step'], b['kind'], b['arg'], str(b['fresh'])[:120]), b)
+    chk.add(python_zone_specifier_calls=pyn)
     chk.add(states=st, transitions=tr, traces_validated_against_impl=ntr + nscripts, model_edges_replayed=nscripts,
             random_histories=ntr, random_histories_accepted=acc, real_calls_compared_with_fresh_time_zone=nsteps,
             rule='every transition of the ZoneProc model graph (configs %s) replayed in the ASan+UBSan build of the real classes for Basic and Extended; seeded random histories (K=1..4, 3-6 zones, in/out-of-range and Jan-1 arguments) validated by ZoneProc_Trace' % [c[0] for c in configs])
